@@ -116,6 +116,27 @@ def amplifier_tap() -> Dict[str, Any]:
     return cfg
 
 
+def amplifier_scripted() -> Dict[str, Any]:
+    """One LAN with every kind of scripted agent that draws: a random-agent, two periodic agents (several start nodes,
+    start and period variance), a red-database-corrupting-agent and two probabilistic agents, next to a proxy agent."""
+    from . import c19
+
+    nodes, links = c19.lan()
+    H = c19.HOSTS
+    agents = [
+        scenarios.proxy_agent({0: {"action": "do-nothing", "options": {}},
+                               1: {"action": "node-application-execute", "options": {"node_name": H[0], "application_name": "web-browser"}},
+                               2: {"action": "node-service-scan", "options": {"node_name": "srv", "service_name": "web-server"}}}, masking=False),
+        c19.random_def("rand", H[2]),
+        c19.periodic_def("per_a", "periodic-agent", {"start": 2, "startVar": 1, "freq": 3, "var": 2}, H[:3]),
+        c19.periodic_def("per_b", "periodic-agent", {"start": 1, "startVar": 0, "freq": 2, "var": 1, "app": "web-browser"}, H[1:4]),
+        c19.periodic_def("red", "red-database-corrupting-agent", {"start": 3, "startVar": 2, "freq": 4, "var": 3}, H[:4]),
+        c19.prob_def("prob_a", [(0, 0.25), (1, 0.25), (2, 0.25), (3, 0.25)], H[0]),
+        c19.prob_def("prob_b", [(2, 0.5), (0, 0.2), (1, 0.3)], H[1]),
+    ]
+    return scenarios.base_cfg(nodes, links, agents)
+
+
 PROFILES = [
     ("hash1", {"hashseed": 1}),
     ("hash2", {"hashseed": 2}),
@@ -154,6 +175,7 @@ def main(tier: str, seed: int) -> int:
         ("amplifier_tap_start_nodes", {"cfg": amplifier_tap()}, 60),
         ("data_manipulation_without_optional_blocks", {"cfg": without_optional_blocks()}, 78),
         ("amplifier_equal_cost_routes", {"cfg": amplifier_equal_cost()}, 3),
+        ("amplifier_scripted_agents", {"cfg": amplifier_scripted()}, 3),
     ]
     if tier == "thorough":
         scen += [
